@@ -48,13 +48,17 @@ Section A.
       forall more, 51 + w_dpad o + w_ipad o + ws_pos sj + blen (enc_sections more) < two63 ->
         ws_file (fst (fe_finalize (run_puts s1 more))) = ws_file (fst (fe_finalize (run_puts sj more))).
 
-  (* an image on which reopen rebuilds the state of the first j puts *)
-  Lemma resumed_outcome start st0 puts done j img log :
-    Inv start st0 -> budget st0 puts -> (done <= j <= length puts)%nat ->
-    reopen_ img = inl (resumed_state k o nilroots roots log (abs_puts st0 (firstn j puts))) ->
-    resumed_as_after start puts done img.
+  (* the strong form: reopen returns literally the state Resume builds for the stored list after the
+     first j puts (st0 = what the process had stored when it started) *)
+  Definition resumed_exactly (st0 : list block) (puts : list block) (done : nat) (img : bytes) : Prop :=
+    exists log j, (done <= j <= length puts)%nat /\
+      reopen_ img = inl (resumed_state k o nilroots roots log (abs_puts st0 (firstn j puts))).
+
+  Lemma resumed_exactly_weaken start st0 puts done img :
+    Inv start st0 -> budget st0 puts ->
+    resumed_exactly st0 puts done img -> resumed_as_after start puts done img.
   Proof.
-    intros HI Hb Hj Hre. unfold ResumeInv.budget in Hb.
+    intros HI Hb (log & j & Hj & Hre). unfold ResumeInv.budget in Hb.
     pose proof (firstn_enc_sections_le puts j) as Hle.
     assert (HIj : Inv (run_puts start (firstn j puts)) (abs_puts st0 (firstn j puts))).
     { apply (run_puts_inv hdrdec k o nilroots roots Hpar); [exact HI|lia]. }
@@ -80,10 +84,9 @@ Section A.
   (* an image that is the live file of the first j puts resumes as the state after those puts *)
   Lemma boundary_outcome start st0 puts done j :
     Inv start st0 -> budget st0 puts -> (done <= j <= length puts)%nat ->
-    resumed_as_after start puts done (live_file (abs_puts st0 (firstn j puts))).
+    resumed_exactly st0 puts done (live_file (abs_puts st0 (firstn j puts))).
   Proof.
-    intros HI Hb Hj.
-    apply (resumed_outcome start st0 puts done j _ (if w_v1 o then [] else zero_hdr_log) HI Hb Hj).
+    intros HI Hb Hj. exists (if w_v1 o then [] else zero_hdr_log), j. split; [exact Hj|].
     unfold ResumeInv.budget in Hb. pose proof (firstn_enc_sections_le puts j) as Hle.
     assert (HIj : Inv (run_puts start (firstn j puts)) (abs_puts st0 (firstn j puts))).
     { apply (run_puts_inv hdrdec k o nilroots roots Hpar); [exact HI|lia]. }
@@ -97,11 +100,11 @@ Section A.
     (exists F, W = writes_of (ws_dev start) ++ sess_writes o nilroots roots st0 puts ++ F) ->
     let img := image f0 W (loglen start + kk) t in
     match put_class start puts kk t with
-    | Some CBoundary => resumed_as_after start puts (done_puts start puts kk) img
+    | Some CBoundary => resumed_exactly st0 puts (done_puts start puts kk) img
     | Some CHead => refused_untouched img
     | Some _ => True
     | None => kk = length (sess_writes o nilroots roots st0 puts) -> t = 0 ->
-              resumed_as_after start puts (done_puts start puts kk) img
+              resumed_exactly st0 puts (done_puts start puts kk) img
     end.
   Proof.
     intros HI Hdev Hb (F & HW). cbv zeta.
@@ -212,7 +215,7 @@ Section A.
   Theorem open_phase_crash puts kk t R :
     kind_ok k o -> budget [] puts -> (kk < length open_writes)%nat ->
     let img := image [] (open_writes ++ R) kk t in
-    refused_untouched img \/ resumed_as_after open_state puts 0 img.
+    refused_untouched img \/ resumed_exactly [] puts 0 img.
   Proof.
     intros Hk Hb Hkk. cbv zeta.
     assert (Hfit0 : fits []).
@@ -231,10 +234,11 @@ Section A.
       destruct (take m base_file) as [|x0 r0] eqn:Et.
       + destruct (reopen_empty_cases hdrdec k o nilroots roots) as [Hre|Hre].
         * (* blockstore on an empty file: initialised afresh = the state the process started in *)
-          right. unfold resumed_as_after. exists open_state, 0%nat.
-          split; [rewrite Hre, (open_new_eq k o nilroots roots Hk Hfit0); reflexivity|].
-          split; [lia|]. cbv zeta. cbn [firstn]. unfold run_puts at 1 2 3 5. cbn [fold_left].
-          repeat split; reflexivity.
+          right. exists (open_log o nilroots roots), 0%nat. split; [lia|].
+          rewrite Hre, (open_new_eq k o nilroots roots Hk Hfit0). cbn [firstn].
+          unfold ResumeInv.abs_puts. cbn [fold_left]. f_equal.
+          unfold ResumeInv.open_state, ResumeInv.resumed_state, ResumeInv.live_file, idx_of.
+          change (enc_sections []) with (@nil byte). rewrite app_nil_r, blen_nil, N.add_0_r. reflexivity.
         * left. exists e, (mkdev [] [] []). split; [|reflexivity].
           rewrite Hre. apply resume_rejected. exact He.
       + left. exists e, (mkdev (x0 :: r0) [] []). split; [|reflexivity].
